@@ -224,6 +224,13 @@ func (a *Agent) Status() *model.Status {
 		// Match the status to the execution graph.
 		schedulerStatus = scheduler.StatusRunning
 	}
+	if schedulerStatus == scheduler.StatusSuccess &&
+		a.graph.IsStarted() && !a.graph.IsFinished() {
+		// No step is running at this instant and none has failed, but the
+		// run is not over (the next step has not been launched yet, or a
+		// handler is about to run): it must not be recorded as finished.
+		schedulerStatus = scheduler.StatusRunning
+	}
 
 	// Create the status object to record the current status.
 	status := &model.Status{
